@@ -114,8 +114,9 @@ def rand_case(rng, kind=None):
     es, ns = pts(rng, n)
     while ((kind.startswith("knn") or "knn" in kind) and _has_ties(es, ns, at_data=kind.startswith("chain"))) or (kind in ("linear", "cubic") and _degenerate(es, ns)):
         es, ns = pts(rng, n)
-    d1 = [float(rng.randint(-20, 20)) for _ in range(n)]
-    d2 = [float(rng.randint(-20, 20)) for _ in range(n)]
+    amp = rng.choice([1.0, 1.0, 1.0, 0.001, 12500.0])      # data in other units (mm .. large counts): invariances do not depend on the data's amplitude
+    d1 = [float(rng.randint(-20, 20)) * amp for _ in range(n)]
+    d2 = [float(rng.randint(-20, 20)) * amp for _ in range(n)]
     w = [float(rng.randint(1, 5)) for _ in range(n)] if (kind in ("trend", "spline", "vector") and rng.random() < 0.5) else None
     params = {"trend": {"degree": rng.randint(0, 2)},
               "spline": {"damping": rng.choice([None, 1e-3, 1e-1])},
@@ -186,8 +187,9 @@ def _variants(kind, es, ns, d1, d2, w, perm, seed):
     hole[:: max(2, n // 3)] = np.nan
     out["extra-coords-with-nan"] = ((E, N, hole), D, W)
     out["int-coords"] = ((E.astype("int64"), N.astype("int64")), D, W)
-    out["int-data"] = ((E, N), each(lambda x: x.astype("int64"), D), W)
-    out["int-all"] = ((E.astype("int32"), N.astype("int32")), each(lambda x: x.astype("int64"), D), W)
+    if all(float(v).is_integer() for v in list(d1) + list(d2)):      # (only integer-VALUED data can be handed over with an integer dtype)
+        out["int-data"] = ((E, N), each(lambda x: x.astype("int64"), D), W)
+        out["int-all"] = ((E.astype("int32"), N.astype("int32")), each(lambda x: x.astype("int64"), D), W)
     return out
 
 
